@@ -366,6 +366,22 @@ func genParseChunk(g *h.Gen) {
 		g.Emit("parsechunk %s%s utf8 80 24 1b5b3c303b353b354d7879:0", e, vs) // example of sgr_no_junk
 		g.Emit("parsechunk %s%s utf8 80 24 1b:1", e, vs)
 	}
+	// bytes that belong to no SGR report in front of / inside / behind one, at every position of the report (property:
+	// "a recognised sequence never swallows … bytes that precede or follow it"; fixes/C02-sgr-strict.patch), whole and split
+	rep := []byte("\x1b[<0;15;5M")
+	for pos := 0; pos <= len(rep); pos++ {
+		for _, junk := range []string{"x", ":", "<", "[", " ", "\x1b", "~", "\xc3\xa9"} {
+			if pos == len(rep) && junk == "\x1b" {
+				continue
+			}
+			b := append(append(append([]byte{}, rep[:pos]...), junk...), rep[pos:]...)
+			g.Emit("parsechunk xterm-256color%s utf8 80 24 %s", vs, hexFeed(b, true))
+			if g.R.Chance(25) {
+				c := g.R.Range(1, len(b)-1)
+				g.Emit("parsechunk xterm-256color%s utf8 80 24 %s %s", vs, hexFeed(b[:c], false), hexFeed(b[c:], true))
+			}
+		}
+	}
 	g.Emit("parsechunk rxvt%s utf8 80 24 1b5b4f61:0", vs)
 	g.Emit("parsechunk rxvt%s utf8 80 24 1b5b4f:0 61:0", vs)
 
